@@ -267,6 +267,47 @@ def ruleSuffixes : List Str := ["", "7", "m", "M", "m7", "M7", "dim", "dim7"].ma
 theorem outputs_well_formed : ∀ num ∈ numerals, ∀ sf ∈ ruleSuffixes, ∀ a ∈ [(-2 : Int), -1, 0, 1, 2],
     outputsWellFormed (accPrefix a ++ num ++ sf) = true := by decide +kernel
 
+/-- each rule answers only for the chords it documents (ignore_suffix off): for EVERY string, outside the documented
+    suffixes / unsuffixed degrees the answer is the empty list -/
+def DocMinor (p : Str) : Prop :=
+  (parseString p).2.2 = lit "m" ∨ (parseString p).2.2 = lit "m7" ∨
+    ((parseString p).2.2 = [] ∧ [lit "II", lit "III", lit "VI"].contains (parseString p).1)
+def DocMajor (p : Str) : Prop :=
+  (parseString p).2.2 = lit "M" ∨ (parseString p).2.2 = lit "M7" ∨
+    ((parseString p).2.2 = [] ∧ [lit "I", lit "IV", lit "V"].contains (parseString p).1)
+def DocDim (p : Str) : Prop :=
+  (parseString p).2.2 = lit "dim7" ∨ (parseString p).2.2 = lit "dim" ∨ ((parseString p).2.2 = [] ∧ (parseString p).1 = lit "VII")
+def DocHarmonic (p : Str) : Prop := (parseString p).2.2 = [] ∨ (parseString p).2.2 = lit "7"
+
+theorem minor_for_major_only_documented (p : Str) (h : ¬ DocMinor p) : substituteMinorForMajor p false = .ok [] := by
+  unfold DocMinor at h
+  unfold substituteMinorForMajor
+  simp only [Bool.false_eq_true, or_false]
+  rw [if_neg h]; rfl
+theorem major_for_minor_only_documented (p : Str) (h : ¬ DocMajor p) : substituteMajorForMinor p false = .ok [] := by
+  unfold DocMajor at h
+  unfold substituteMajorForMinor
+  simp only [Bool.false_eq_true, or_false]
+  rw [if_neg h]; rfl
+theorem dimGuard_false (p : Str) (h : ¬ DocDim p) : dimGuard (parseString p).1 (parseString p).2.2 false = false := by
+  unfold DocDim at h
+  simp only [dimGuard, Bool.false_eq_true, or_false, decide_eq_false_iff_not]
+  exact h
+theorem dim_for_dim_only_documented (p : Str) (h : ¬ DocDim p) : substituteDimForDim p false = .ok [] := by
+  unfold substituteDimForDim
+  simp only [dimGuard_false p h, Bool.false_eq_true, if_false]; rfl
+theorem dim_for_dom_only_documented (p : Str) (h : ¬ DocDim p) : substituteDimForDom p false = .ok [] := by
+  unfold substituteDimForDom
+  simp only [dimGuard_false p h, Bool.false_eq_true, if_false]; rfl
+theorem harmonic_only_documented (p : Str) (h : ¬ DocHarmonic p) : substituteHarmonic p false = .ok [] := by
+  unfold DocHarmonic at h
+  unfold substituteHarmonic
+  simp only [Bool.false_eq_true, or_false]
+  rw [if_neg h]; rfl
+/-- the guards are not vacuous either way -/
+example : ¬ DocDim (lit "V") ∧ DocDim (lit "VII") ∧ DocDim (lit "bIIdim7") ∧ ¬ DocMinor (lit "IVM7") ∧ DocMinor (lit "Vm7") := by
+  unfold DocDim DocMinor; decide +kernel
+
 /-- non-vacuity -/
 example : toChords [lit "bbVIIdim7", lit "iim7"] (lit "Eb") =
     .ok [["Dbb", "Fbb", "Abbb", "Cbbb"].map String.toList, ["F", "Ab", "C", "Eb"].map String.toList] := by decide +kernel
